@@ -152,6 +152,7 @@ type errVar struct {
 }
 
 type pst struct {
+	valErr    map[types.Object]types.Object // value variable -> error variable of the same tuple assignment
 	boolDefs  map[types.Object]ast.Expr  // local bool variables defined once by an expression
 	bufState  map[string]string          // builder name -> empty | nonempty
 	setVars   map[types.Object]string    // local *PercentEncodeSet variables -> resolved expression
@@ -192,6 +193,10 @@ func (s *pst) clone() *pst {
 	n.boolDefs = map[types.Object]ast.Expr{}
 	for k, v := range s.boolDefs {
 		n.boolDefs[k] = v
+	}
+	n.valErr = map[types.Object]types.Object{}
+	for k, v := range s.valErr {
+		n.valErr[k] = v
 	}
 	n.facts = make(map[string]bool, len(s.facts))
 	for k, v := range s.facts {
@@ -1342,6 +1347,14 @@ func (a *smAn) assign(x *ast.AssignStmt, s *pst) {
 					}
 					s.errs[a.obj(id)] = ev
 					delete(s.nonNil, a.obj(id))
+					for j, l2 := range x.Lhs {
+						if j == i {
+							continue
+						}
+						if id2, ok := l2.(*ast.Ident); ok && id2.Name != "_" {
+							s.valErr[a.obj(id2)] = a.obj(id)
+						}
+					}
 				}
 			}
 		}
@@ -1449,6 +1462,18 @@ func (a *smAn) assign(x *ast.AssignStmt, s *pst) {
 					if detail == "" {
 						detail = a.str(rr)
 					}
+					// validate-then-commit: &v where v came out of a call together with an error
+					if u, ok := rr.(*ast.UnaryExpr); ok && u.Op == token.AND {
+						if vid, ok := ast.Unparen(u.X).(*ast.Ident); ok {
+							if eo, ok := s.valErr[a.obj(vid)]; ok {
+								if nn, tested := s.nonNil[eo]; tested && !nn {
+									detail += " [validated]"
+								} else {
+									detail += " [unvalidated]"
+								}
+							}
+						}
+					}
 				}
 				s.path.Effects = append(s.path.Effects, fieldEff{Field: f, Kind: kind, Detail: detail, Pos: x.Pos()})
 				s.invalidate("url." + f)
@@ -1540,7 +1565,7 @@ func (a *smAn) clauseBody(state string) []ast.Stmt {
 }
 
 func (a *smAn) newState(state string) *pst {
-	return &pst{boolDefs: map[types.Object]ast.Expr{}, bufState: map[string]string{}, setVars: map[types.Object]string{}, strVars: map[types.Object]ast.Expr{}, path: smPath{Ctx: a.ctx.Name, State: state}, facts: map[string]bool{}, rclass: a.allClasses(), eofSynced: true,
+	return &pst{valErr: map[types.Object]types.Object{}, boolDefs: map[types.Object]ast.Expr{}, bufState: map[string]string{}, setVars: map[types.Object]string{}, strVars: map[types.Object]ast.Expr{}, path: smPath{Ctx: a.ctx.Name, State: state}, facts: map[string]bool{}, rclass: a.allClasses(), eofSynced: true,
 		errs: map[types.Object]*errVar{}, nonNil: map[types.Object]bool{}, urlNil: triF}
 }
 
